@@ -247,7 +247,7 @@ class BitArray(Bits):
             raise ValueError("Cannot shift an empty bitstring.")
         if not n:
             return self
-        n = min(n, len(self))
+        n = min(int(n), len(self))
         return self._irshift(n)
 
     def __imul__(self: TBits, n: int) -> TBits:
